@@ -28,6 +28,10 @@ def rank_profiles(tier, rational=True, extra4=True):
         out += [("int", c) for c in fam.prof_list(R3, 2, (1, 2), c3)]
         out += [("int", c) for c in fam.prof_list(R2, 3, (1, 2), c2)]
         out += [("int", c) for c in fam.prof_list(R1, 1, (1, 2), c1)]
+        # uncondensed profiles: a ranking repeated on a further ballot with another weight
+        base = fam.prof_list(R3, 2, (1, 2), c3)
+        out += [("int", (cs_, bl + ((bl[0][0], 3),))) for (cs_, bl) in base[30::7]]
+        out += [("int", (cs_, ((bl[-1][0], 1),) + bl)) for (cs_, bl) in base[33::11]]
         if rational:
             out += [("rat", c) for c in fam.prof_list(R3, 2, (H, TH), c3)]
             # weights around one million: transfer values whose denominators exceed 10**6 (exactness of Fraction weights)
@@ -50,7 +54,8 @@ def rank_profiles(tier, rational=True, extra4=True):
 
 def family_text(tier, rational=True, extra4=True):
     if tier == "quick":
-        s = "Prof(Rank(3),2,{1,2}) + Prof(Rank(2),3,{1,2}) + Prof(Rank(1),1,{1,2})"
+        s = ("Prof(Rank(3),2,{1,2}) + Prof(Rank(2),3,{1,2}) + Prof(Rank(1),1,{1,2}) + uncondensed variants of a slice of "
+             "Prof(Rank(3),2,{1,2}) (one ranking repeated on a third ballot)")
         if rational:
             s += " + Prof(Rank(3),2,{1/2,3/2}) + every 9th of Prof(Rank(3),2,{1000003,999983}) and of Prof(Rank(3),2,{2^53,2^53+1})"
     else:
